@@ -408,10 +408,38 @@ def falsify(ctx, hints):
     rng = ctx.rng
     ck = Checker()
     NS = "ns = dict(yy=ir.yy, hh=ir.hh, qq=ir.qq, mm=ir.mm, dd=ir.dd, ii=ir.ii)\n"
-    for it in range(ctx.scale(600, 5000)):
-        f = rng.choice(FREQS)
-        s = rand_spec(rng, freq=f, lo=1, hi=9950, sloppy=0)      # room for a later period inside the supported calendar
+    # directed corpus first: the periods holding the end of February of century / leap / ordinary years (the only
+    # year-dependent day of the calendar tables), for every calendar frequency
+    corpus = []
+    for y in (1600, 1700, 1900, 2000, 2100, 2200, 2400, 2023, 2024, 4, 100, 400):
+        corpus += [(12, ("reg", 12, y, 2)), (4, ("reg", 4, y, 1)), (2, ("reg", 2, y, 1)), (1, ("reg", 1, y, 1)),
+                   (365, ("day", y, 2, 28)), (365, ("doy", y, 60))]
+    n_random = ctx.scale(600, 5000)
+    for it in range(n_random + len(corpus)):
+        if it < len(corpus):
+            f, s = corpus[it]
+        else:
+            f = rng.choice(FREQS)
+            s = rand_spec(rng, freq=f, lo=1, hi=9950, sloppy=0)      # room for a later period inside the supported calendar
         P = py_spec(s)
+        if it % 3 == 0:
+            # lists of SDMX strings: the i-th result is the period of the i-th string whatever the order of the list
+            # (ascending, descending, interior permuted, repeats with gaps, end points exactly len-1 apart)
+            m_ = rng.randint(3, 7)
+            offs = list(range(m_))
+            kind_ = rng.choice(["asc", "desc", "interior", "repeat-gap", "shuffle"])
+            if kind_ == "desc":
+                offs.reverse()
+            elif kind_ == "interior":
+                mid = offs[1:-1]; rng.shuffle(mid); offs = [offs[0]] + mid + [offs[-1]]
+            elif kind_ == "repeat-gap":
+                j_ = rng.randint(1, m_ - 2); offs[j_] = offs[j_ - 1]
+            elif kind_ == "shuffle":
+                rng.shuffle(offs)
+            ck.check(f"sdmx:list:{NAMES[f]}", "periods_from_sdmx_strings(xs)[i] != from_sdmx_string(xs[i])", {"p": P, "offsets": offs},
+                     f"p = {P}\nps = [p + k for k in {offs}]\nxs = [q.to_sdmx_string() for q in ps]\n"
+                     "got = ir.periods_from_sdmx_strings(xs)\nassert tuple(got) == tuple(ps), (xs, got)\n"
+                     "got2 = ir.periods_from_sdmx_strings(xs, frequency=p.frequency)\nassert tuple(got2) == tuple(ps), (xs, got2)")
         nm = NAMES[f]
         pre = f"p = {P}\n"
         ck.check(f"sdmx:roundtrip:{nm}", "from_sdmx_string(to_sdmx_string(p), frequency) != p", {"p": P},
